@@ -75,35 +75,136 @@ def check_worst(ctx, rule, prop, gates, kinds):
                               "witness": why, "expr": S.show(g.x, g.body)[:300]})
 
 
-def shape_length(ctx, rule, gates):
-    """length gate is 1 - min(a,b)/max(a,b) over the two word lengths, the record side clipped to the
-    query length when the query word is unfinished"""
+def _length_gate_setting(ctx, g):
+    """(function body computing the gate value, block of the comparison, query param, record param, Q atom expr, R atom expr)"""
+    fb = g.xbody
+    sy = ctx.sym(fb)
+    goal = None
+    want = S.norm(g.cmp_e) if g.cmp_e is not None else None
+    for bi, si, st in fb.iter_stmts():
+        if st["k"] == "assign" and st["rv"]["k"] == "binop" and st["rv"]["op"] in U.CMP_OPS and not fb.blocks[bi]["cleanup"]:
+            if want is not None and S.norm(sy.rvalue(st["rv"])) == want:
+                goal = bi
+    if goal is None:
+        return None
+    # the query parameter is the one whose `fin` flag is consulted
+    fin_params = set()
+    lens = {}
+    for bi, t in fb.iter_terms():
+        if t["k"] == "switch":
+            for x in S.walk(sy.operand(t["discr"])):
+                if isinstance(x, tuple) and x and x[0] == "field" and str(x[2]) == "fin":
+                    base = S.strip_refs(x[1])
+                    if base[0] == "arg":
+                        fin_params.add(base[1])
+    for bi, t in fb.calls():
+        if (t.get("rcn") or t.get("cn") or "").endswith("Word::len") or (t.get("cn") or "").endswith("Word::len"):
+            a0 = S.strip_refs(sy.operand(t["args"][0]))
+            if a0[0] == "arg":
+                lens[a0[1]] = sy.call_expr(t, bi)
+    if len(lens) != 2:
+        return None
+    params = sorted(lens)
+    q = sorted(fin_params)[0] if len(fin_params) == 1 else params[-1]
+    r = [p for p in params if p != q][0]
+    return fb, goal, q, r, lens[q], lens[r], bool(fin_params)
+
+
+def _ratio_operands(v):
+    """(x, y) if v is 1 - x/y or (y - x)/y over integer operands (converted to float), else None"""
+    def unfloat(e):
+        e = S.strip_refs(e)
+        while isinstance(e, tuple) and e and e[0] == "cast":
+            e = S.strip_refs(e[2])
+        return e
+    v = S.strip_refs(v)
+    if v[0] == "binop" and v[1] == "Sub" and U.is_const(v[2]) and S.const_value(v[2]) == 1.0:
+        d = S.strip_refs(v[3])
+        if d[0] == "binop" and d[1] == "Div":
+            return unfloat(d[2]), unfloat(d[3])
+    if v[0] == "binop" and v[1] == "Div":
+        num, den = unfloat(v[2]), unfloat(v[3])
+        if num[0] == "binop" and num[1] == "Sub":
+            y, x = S.strip_refs(num[2]), S.strip_refs(num[3])
+            if S.strip_sites(y) == S.strip_sites(den):
+                return x, den
+    return None
+
+
+def shape_length(ctx, rule, gates, clip_rule=None):
+    """The length gate computes 1 - min(Q, R')/max(Q, R') with Q the query word's length and R' the record word's length,
+    clipped to Q when the query word is unfinished.  Decided region by region (fin x order of the two lengths, both >= 2):
+    on every feasible path the gate value must be the ratio of the two operands the formula prescribes for that region."""
+    from .. import regions as RG_
+    from .. import bounds as B
     for g in _by_kind(gates).get("length", []):
-        x = g.x
-        ok = (x[0] == "binop" and x[1] == "Sub" and S.const_value(x[2]) == 1.0
-              and x[3][0] == "binop" and x[3][1] == "Div")
-        mins = U.expr_calls(x, "cmp::min")
-        maxs = U.expr_calls(x, "cmp::max")
-        ok = ok and bool(mins) and bool(maxs)
-        if ok:
-            num, den = x[3][2], x[3][3]
-            ok = bool(U.expr_calls(num, "cmp::min")) and bool(U.expr_calls(den, "cmp::max")) \
-                and not U.expr_calls(num, "cmp::max")
-        if not ok and x[0] == "binop" and x[1] == "Div":
-            # equivalent spelling (max - min) / max
-            num, den = x[2], x[3]
-            while num[0] == "cast":
-                num = num[2]
-            ok = num[0] == "binop" and num[1] == "Sub" and bool(U.expr_calls(num[2], "cmp::max")) and \
-                bool(U.expr_calls(num[3], "cmp::min")) and bool(U.expr_calls(den, "cmp::max"))
-        key = "length-shape:%s" % g.body.id
-        if ok:
-            ctx.ok(rule, key, where(g.body, g.bi), "length gate has the shape 1 - min/max",
-                   {"expr": S.show(x, g.body)[:300]}, nontrivial=True)
+        setting = _length_gate_setting(ctx, g)
+        key_s = "length-shape:%s" % g.body.id
+        key_c = "length-clip:%s" % g.body.id
+        if setting is None:
+            ctx.fail(rule, key_s, where(g.body, g.bi), "length gate: cannot locate the comparison and the two word lengths in %s "
+                     "(fail closed: the forced values were derived for 1 - min/max)" % g.xbody.id, {"expr": S.show(g.x, g.xbody)[:300]})
+            continue
+        fb, goal, qp, rp, Qe, Re, has_fin = setting
+        Q, R = B.lin(Qe), B.lin(Re)
+        fin_atom = None
+        sy = ctx.sym(fb)
+        for bi, t in fb.iter_terms():
+            if t["k"] == "switch":
+                for x in S.walk(sy.operand(t["discr"])):
+                    if isinstance(x, tuple) and x and x[0] == "field" and str(x[2]) == "fin" and S.strip_refs(x[1]) == ("arg", qp):
+                        fin_atom = B.norm_atom(x)
+        problems = {True: [], False: []}
+        checked = {True: 0, False: 0}
+        for fin in (True, False):
+            for order in ("lt", "eq", "gt"):
+                facts = [B.ge(Q, B.Lin({}, 2), "Q >= 2"), B.ge(R, B.Lin({}, 2), "R >= 2")]
+                if order == "lt":
+                    facts.append(B.gt(R, Q, "Q < R"))
+                elif order == "gt":
+                    facts.append(B.gt(Q, R, "Q > R"))
+                else:
+                    facts += [B.ge(Q, R, "Q >= R"), B.ge(R, Q, "R >= Q")]
+                region = RG_.Region("fin=%s,%s" % (fin, order), facts, {fin_atom: fin} if fin_atom is not None else {})
+                vals, und = RG_.values_at(ctx, fb, region, goal, g.x)
+                if vals is None or not vals:
+                    problems[fin].append("%s: the comparison is not reached (%s)" % (region.name, und))
+                    continue
+                # expected operands
+                if fin:
+                    exp_x, exp_y = (Q, R) if order in ("lt", "eq") else (R, Q)
+                else:
+                    exp_x, exp_y = (Q, Q) if order in ("lt", "eq") else (R, Q)
+                for v in vals:
+                    checked[fin] += 1
+                    xy = _ratio_operands(v)
+                    if xy is None:
+                        problems[fin].append("%s: value %s is not a ratio 1 - x/y" % (region.name, S.show(v, fb)[:120]))
+                        continue
+                    lx, ly = B.lin(xy[0]), B.lin(xy[1])
+                    def equal(a, b_):
+                        return B.prove(a - b_, region.facts) is not None and B.prove(b_ - a, region.facts) is not None
+                    if not (equal(lx, exp_x) and equal(ly, exp_y)):
+                        problems[fin].append("%s: value is 1 - (%s)/(%s), expected 1 - %s/%s" % (
+                            region.name, S.show(xy[0], fb)[:60], S.show(xy[1], fb)[:60],
+                            "Q" if exp_x is Q else "R", "Q" if exp_y is Q else "R"))
+        if not problems[True] and checked[True]:
+            ctx.ok(rule, key_s, where(g.body, g.bi), "length gate is 1 - min/max of the two word lengths in every region "
+                   "(finished query word; Q<R, Q=R, Q>R)", {"expr": S.show(g.x, fb)[:300], "function": fb.id, "values_checked": checked[True]},
+                   nontrivial=True)
         else:
-            ctx.fail(rule, key, where(g.body, g.bi),
-                     "length gate no longer has the recognised shape 1 - min(q,r)/max(q,r) (fail closed: the "
-                     "forced values were derived for that formula)", {"expr": S.show(x, g.body)[:300]})
+            ctx.fail(rule, key_s, where(g.body, g.bi),
+                     "length gate is not 1 - min(q,r)/max(q,r) (the forced values were derived for that formula): %s"
+                     % "; ".join(problems[True][:3]), {"expr": S.show(g.x, fb)[:300]})
+        if clip_rule is not None:
+            if not problems[False] and checked[False] and has_fin:
+                ctx.ok(clip_rule, key_c, where(g.body, g.bi), "for an unfinished query word the record length is clipped to the "
+                       "typed length in every region (Q<R gives distance 0)", nontrivial=True)
+            else:
+                ctx.fail(clip_rule, key_c, where(g.body, g.bi),
+                         "the length gate no longer clips the record word to the typed length for an unfinished query: %s"
+                         % ("; ".join(problems[False][:3]) or "the query word's `fin` flag is not consulted"),
+                         {"witness": "query 'ab' against title 'abcdefgh': length distance 1 - 2/8 rejects the prefix"})
 
 
 def shape_damlev(ctx, rule, gates):
